@@ -253,3 +253,41 @@ pub fn mz_deflate_reset_run(xh: &[u8], steps_h: &[(u32, u32, i32)], xw: &[u8], s
     unsafe { mz_deflateEnd(&mut s) };
     Ok(run)
 }
+
+pub fn compress_bound(n: usize) -> usize {
+    mz_compressBound(n as c_ulong) as usize
+}
+
+pub fn deflate_bound(n: usize) -> usize {
+    mz_deflateBound(std::ptr::null_mut(), n as c_ulong) as usize
+}
+
+/// mz_compress2 into a destination of exactly `dest_len` bytes: (return code, bytes written)
+pub fn compress2(data: &[u8], level: i32, dest_len: usize) -> Result<(i32, usize), Violation> {
+    let mut dest = vec![0u8; dest_len.max(1)];
+    let mut dl = dest_len as c_ulong;
+    // SAFETY: live buffers of the stated sizes
+    let rc = guard(|| unsafe { mz_compress2(dest.as_mut_ptr(), &mut dl, data.as_ptr(), data.len() as c_ulong, level) }).map_err(|pm| Violation::new(panic_sig("mz_compress2", &pm), format!("mz_compress2 unwound: {pm}")))?;
+    Ok((rc, dl as usize))
+}
+
+/// one mz_deflate(MZ_FINISH) call with a huge output buffer: (return code, total_out)
+pub fn deflate_finish_once(data: &[u8], level: i32, strategy: i32, out_cap: usize) -> Result<(i32, usize), Violation> {
+    let mut s = mz_stream::default();
+    // SAFETY: valid zeroed stream
+    let rc = unsafe { mz_deflateInit2(&mut s, level, 8, 15, 9, strategy) };
+    if rc != 0 {
+        return Err(Violation::new("capi:init", format!("mz_deflateInit2({level}, strategy {strategy}) returned {rc}")));
+    }
+    let mut out = vec![0u8; out_cap];
+    s.next_in = data.as_ptr();
+    s.avail_in = data.len() as c_uint;
+    s.next_out = out.as_mut_ptr();
+    s.avail_out = out_cap as c_uint;
+    // SAFETY: live buffers
+    let rc = guard(|| unsafe { mz_deflate(&mut s, 4) }).map_err(|pm| Violation::new(panic_sig("mz_deflate", &pm), format!("mz_deflate unwound: {pm}")))?;
+    let t = s.total_out as usize;
+    // SAFETY: initialised stream
+    unsafe { mz_deflateEnd(&mut s) };
+    Ok((rc, t))
+}
